@@ -10,6 +10,8 @@ import (
 	"os"
 	"path/filepath"
 	"strings"
+	"sync"
+	"time"
 
 	"verif/internal/procnode"
 	"verif/internal/sqlref"
@@ -130,6 +132,12 @@ const (
 
 func (o Outcome) String() string { return [...]string{"acked", "failed", "unknown"}[o] }
 
+var slowReads sync.Map // *procnode.Node -> chan struct{} closed when the background read returned
+
+// slowSQL reads table c first (which opens the read transaction) and then
+// counts through a recursive CTE.
+const slowSQL = "SELECT count(*) FROM (SELECT n FROM c) AS a, (WITH RECURSIVE r(x) AS (SELECT 1 UNION ALL SELECT x+1 FROM r WHERE x < 4000000) SELECT x FROM r) AS b"
+
 // Exec runs op against node n. scratch is a directory for generated files.
 func Exec(n *procnode.Node, o Op, scratch string) (Outcome, string) {
 	switch o.Kind {
@@ -151,6 +159,27 @@ func Exec(n *procnode.Node, o Op, scratch string) (Outcome, string) {
 			return Acked, ""
 		}
 		return Failed, fmt.Sprintf("status %d: %s", r.Status, r.Body)
+	case "slow-read-begin":
+		// A query that holds its read transaction (and with it the end of the WAL)
+		// for a second or so runs in the background; the ops that follow - a
+		// snapshot, whose checkpoint then cannot reset the WAL, and writes, which
+		// SQLite appends to that same WAL - meet it. No effect on the state.
+		ch := make(chan struct{})
+		slowReads.Store(n, ch)
+		go func() {
+			defer close(ch)
+			n.Do("GET", "/db/query?level=none&q="+url.QueryEscape(slowSQL), nil, "")
+		}()
+		time.Sleep(250 * time.Millisecond)
+		return Acked, ""
+	case "slow-read-end":
+		if v, ok := slowReads.LoadAndDelete(n); ok {
+			select {
+			case <-v.(chan struct{}):
+			case <-time.After(60 * time.Second):
+			}
+		}
+		return Acked, ""
 	case "reap":
 		r := n.Do("POST", "/reap", nil, "")
 		if r.Err != nil {
